@@ -258,6 +258,8 @@ fn gen_unit(rng: &mut Rng, h: &Init, apps: &[App], oneshot: bool) -> (UnitEnv, S
     u.sfail = (0..14).map(|_| nfail > 0 && rng.chance(nfail, 8)).collect();
     u.bdt = (0..2).map(|_| dt(rng)).collect();
     if !oneshot && rng.chance(1, 3) { u.during = vec![(200, rng.chance(1, 2))]; if rng.chance(1, 3) { u.during.push((201, rng.chance(1, 2))); } }
+    // they arrive during the first exchange of the check, or during a later one (a retry, an event report)
+    u.during_at = if rng.chance(1, 2) { 0 } else { rng.below(4) as usize };
     u.rallow = (0..4).map(|_| rng.chance(1, 2)).collect();
     u.rnext = (0..3).map(|_| timing(rng, h)).collect();
     u.rebootok = rng.chance(5, 6);
@@ -484,7 +486,9 @@ pub fn run_history_opt(rng: &mut Rng, init: Init, nunits: usize, oneshot: bool, 
             env.uc.clear(); env.ev.clear(); env.pg.clear();
             for (kind, o) in m.log.drain(..) { match kind.as_str() { "uc" => env.uc.push_back(o), "ev" => env.ev.push_back(o), _ => env.pg.push_back(o) } }
         }
-        if !hub.lock().unwrap().trace[start..snap_after.trace_len].iter().any(|l| l.starts_with("H ")) { env.during = vec![]; }
+        // control requests scripted for "during the check" that never found their exchange did not happen
+        let delivered = { let h = hub.lock().unwrap(); if h.during_log.len() > k { h.during_log[k] } else { h.during_done } };
+        if !delivered { env.during = vec![]; }
         done.push(Done { env, path, start, end: snap_after.trace_len, snap_before: snap_before.clone(), snap_after: snap_after.clone(), end_kind, jit, rsteps: rsteps_done, apps_after, should });
         snap_before = snap_after;
         if waited { should = false; }
